@@ -474,3 +474,68 @@ theorem encodeData_ok (env : NsEnv) (henv : EnvOK env) (d : Option Str) (v : Val
         by intro s' h; cases h; exact xmlChars_joinStr ss x1⟩
 
 end Proofs.MapInv
+
+namespace Proofs.MapInv
+open Py Xs.Ns Xs.Sax Xs.Writer Spec.XmlNs
+
+/-! ### add_namespace, attributes -/
+
+theorem prefixExists_of_mem (u : Str) (M : NsMap) (e : Pfx × Str) (he : e ∈ M) (h : e.2 = u) :
+    prefixExists u M = true := by
+  simp only [prefixExists, List.any_eq_true, decide_eq_true_eq]
+  exact ⟨e, he, h⟩
+
+theorem prefixExists_ext (u : Str) (M M' : NsMap) (h : Ext M M') (hp : prefixExists u M = true) :
+    prefixExists u M' = true := by
+  obtain ⟨X, rfl, _⟩ := h
+  simp only [prefixExists, List.any_eq_true, decide_eq_true_eq] at hp ⊢
+  obtain ⟨e, he, heq⟩ := hp
+  exact ⟨e, List.mem_append_left _ he, heq⟩
+
+/-- namespace part of a name is absent or declarable -/
+def nsPartOK : Option Str → Bool
+  | none => true
+  | some u => uriOK u
+
+theorem addNamespace_ok (env : NsEnv) (henv : EnvOK env) (d : Option Str) (uo : Option Str) (M : NsMap)
+    (hM : MapOK env d M) (hu : nsPartOK uo = true) :
+    Ext M (addNamespace env uo M) ∧ MapOK env d (addNamespace env uo M)
+    ∧ ∀ u, uo = some u → prefixExists u (addNamespace env uo M) = true := by
+  cases uo with
+  | none => exact ⟨Ext.refl M, hM, by simp⟩
+  | some u =>
+    simp only [nsPartOK] at hu
+    have hne : u.isEmpty = false := by
+      simp only [uriOK, Bool.and_eq_true, Bool.not_eq_true'] at hu
+      exact hu.1.1
+    unfold addNamespace
+    by_cases hp : prefixExists u M = true
+    · simp only [hne, hp, Bool.not_false, Bool.not_true, Bool.and_false]
+      exact ⟨Ext.refl M, hM, by intro u' h; cases h; exact hp⟩
+    · have hp' : prefixExists u M = false := by simpa using hp
+      simp only [hne, hp', Bool.not_false, Bool.and_self, if_true]
+      obtain ⟨h1, h2, _⟩ := generatePrefix_ok env henv d u M hM hu hp'
+      refine ⟨⟨[(some (generatePrefix env u M).1, u)], h1, by simp⟩, h2, ?_⟩
+      intro u' h; cases h
+      rw [h1]
+      exact prefixExists_of_mem u _ (some (generatePrefix env u M).1, u) (by simp) rfl
+
+theorem addAttrNamespaces_ok (env : NsEnv) (henv : EnvOK env) (d : Option Str) (A : List (EName × Option Str)) :
+    ∀ (M : NsMap), MapOK env d M → (∀ e ∈ A, nsPartOK e.1.1 = true) →
+    Ext M (addAttrNamespaces env A M) ∧ MapOK env d (addAttrNamespaces env A M)
+    ∧ ∀ e ∈ A, ∀ u, e.1.1 = some u → prefixExists u (addAttrNamespaces env A M) = true := by
+  induction A with
+  | nil => intro M hM _; exact ⟨Ext.refl M, hM, by simp⟩
+  | cons a r ih =>
+    obtain ⟨n, v⟩ := a
+    intro M hM h
+    obtain ⟨e1, ok1, p1⟩ := addNamespace_ok env henv d n.1 M hM (h (n, v) (by simp))
+    obtain ⟨e2, ok2, p2⟩ := ih (addNamespace env n.1 M) ok1 (fun e he => h e (List.mem_cons_of_mem _ he))
+    simp only [addAttrNamespaces]
+    refine ⟨e1.trans e2, ok2, ?_⟩
+    intro e he u hu
+    rcases List.mem_cons.mp he with rfl | hm
+    · exact prefixExists_ext u _ _ e2 (p1 u hu)
+    · exact p2 e hm u hu
+
+end Proofs.MapInv
